@@ -20,7 +20,11 @@ else:
     HEX_TO_BYTE = {(a + b).encode(): bytes.fromhex(a + b) for a in HEX for b in HEX}
 
 ASCII_RE = re.compile("([\x00-\x7f]+)")
-C1_CONTROL_RE = re.compile("[\x80-\x9f]")
+# NOTE: C1 control characters and the whitespace characters beyond ascii (as
+# understood by `str.strip`, which would eat them at either end of an url)
+NON_PRINTABLE_RE = re.compile(
+    "[\x80-\x9f\xa0\u1680\u2000-\u200a\u2028\u2029\u202f\u205f\u3000]"
+)
 
 
 def _requote_match(match):
@@ -77,10 +81,10 @@ def _generate_unquoted_parts(string, only_printable=False, unsafe=None, lossless
             m, only_printable=only_printable, unsafe=unsafe, lossless=lossless
         ).decode("utf-8", "ural.requote" if lossless else "replace")
 
-        # NOTE: C1 control characters need two bytes in utf-8, hence they can
+        # NOTE: those characters need several bytes in utf-8, hence they can
         # only be recognized once decoded
         if only_printable:
-            c = C1_CONTROL_RE.sub(_requote_match, c)
+            c = NON_PRINTABLE_RE.sub(_requote_match, c)
 
         yield c
 
